@@ -359,3 +359,185 @@ Proof.
       try (unfold indep; vm_compute; repeat split; discriminate).
   - vm_compute. discriminate.
 Qed.
+
+(* ------------------------------------------------------------------ many tasks: order across files *)
+(* what a message appends, and to which file *)
+Definition target (m : msg) : option (bytes * bytes) :=
+  match m with
+  | MData t d => Some (dat_name t, d)
+  | MKernel c d => Some (kernel_name c, d)
+  | MPerf c d => Some (perf_name c, d)
+  | MMeta f d => Some (f, d)
+  | MInfo h i => Some (n_info, h ++ i)
+  | _ => None
+  end.
+Lemma local_write_target m es :
+  local_write m es = match target m with Some (f, x) => dappend f x es | None => es end.
+Proof. destruct m; reflexivity. Qed.
+
+(* the pieces written to file f, in order *)
+Fixpoint written (f : bytes) (body : list msg) : list bytes :=
+  match body with
+  | [] => []
+  | m :: r => match target m with
+              | Some (g, x) => if list_eqb f g then x :: written f r else written f r
+              | None => written f r
+              end
+  end.
+
+Lemma list_eqb_spec a b : reflect (a = b) (list_eqb a b).
+Proof.
+  destruct (list_eqb a b) eqn:E; constructor.
+  - apply list_eqb_eq. exact E.
+  - intros ->. rewrite list_eqb_refl in E. discriminate.
+Qed.
+
+Lemma flookup_dappend f g x es :
+  flookup f (dappend g x es) =
+  if list_eqb f g then Some (match flookup g es with Some c => c ++ x | None => x end) else flookup f es.
+Proof.
+  induction es as [|[h c] es IH]; cbn [dappend flookup].
+  - destruct (list_eqb_spec f g); reflexivity.
+  - destruct (list_eqb_spec g h) as [->|Ngh]; cbn [flookup].
+    + destruct (list_eqb_spec f h); reflexivity.
+    + destruct (list_eqb_spec f h) as [->|Nfh].
+      * destruct (list_eqb_spec h g); [congruence|reflexivity].
+      * exact IH.
+Qed.
+
+Definition extend (o : option bytes) (ps : list bytes) : option bytes :=
+  match o, ps with
+  | None, [] => None
+  | None, _ => Some (concat ps)
+  | Some c, _ => Some (c ++ concat ps)
+  end.
+
+Lemma flookup_fold f : forall body es,
+  flookup f (fold_left (fun es m => local_write m es) body es) = extend (flookup f es) (written f body).
+Proof.
+  induction body as [|m r IH]; intros es; cbn [fold_left written].
+  - unfold extend. destruct (flookup f es); [rewrite app_nil_r|]; reflexivity.
+  - rewrite IH, local_write_target. destruct (target m) as [[g x]|]; [|reflexivity].
+    rewrite flookup_dappend. destruct (list_eqb_spec f g) as [->|N]; [|reflexivity].
+    unfold extend. cbn [concat]. destruct (flookup g es) as [c|].
+    + rewrite <- app_assoc. reflexivity.
+    + destruct (written g r); cbn [concat]; [rewrite app_nil_r|]; reflexivity.
+Qed.
+
+(* the content of every file depends only on the pieces written to THAT file, in their order: buffers of
+   different tasks (and metadata files) may be sent/written in any relative order *)
+Lemma files_independent body1 body2 :
+  (forall f, written f body1 = written f body2) ->
+  forall f, flookup f (local_dir body1) = flookup f (local_dir body2).
+Proof. intros H f. unfold local_dir. rewrite !flookup_fold, H. reflexivity. Qed.
+
+Example files_independent_ex :
+  let b1 := [MData 1 [1]; MData 2 [2]; MData 1 [3]] in
+  let b2 := [MData 2 [2]; MData 1 [1]; MData 1 [3]] in
+  (forall f, written f b1 = written f b2) /\ local_dir b1 <> local_dir b2.
+Proof.
+  cbn zeta. split.
+  - intros f. cbn [written target]. destruct (list_eqb_spec f (dat_name 1)) as [->|N1].
+    + change (list_eqb (dat_name 1) (dat_name 2)) with false. reflexivity.
+    + destruct (list_eqb f (dat_name 2)); reflexivity.
+  - vm_compute. discriminate.
+Qed.
+
+(* ------------------------------------------------------------------ well-formed sessions never kill the server *)
+Lemma create_directory_present d f : create_directory d f d <> None.
+Proof.
+  unfold create_directory. destruct (f d) as [files|] eqn:E.
+  - destruct (can_remove files).
+    + destruct (f (old_of d)) as [ofiles|].
+      * destruct (can_remove ofiles); [rewrite fs_set_same; discriminate|congruence].
+      * rewrite fs_set_same. discriminate.
+    + congruence.
+  - rewrite fs_set_same. discriminate.
+Qed.
+
+Lemma find_client_del_other i j cl : i <> j -> find_client i (del_client j cl) = find_client i cl.
+Proof.
+  intros H. induction cl as [|[s d] cl IH]; [reflexivity|]. cbn [del_client find_client].
+  destruct (s =? j) eqn:E.
+  - apply N.eqb_eq in E. subst s. destruct (j =? i) eqn:E2; [apply N.eqb_eq in E2; congruence|reflexivity].
+  - cbn [find_client]. destruct (s =? i); [reflexivity|exact IH].
+Qed.
+
+Section Survive.
+  Variable dirs : N -> bytes.
+  Variable P : N -> Prop.                         (* the connections of the run *)
+  Hypothesis pair_indep : forall i j, P i -> P j -> i <> j -> indep (dirs i) (dirs j).
+
+  Definition memb (j : N) (l : list N) : bool := existsb (N.eqb j) l.
+  Lemma memb_In j l : memb j l = true <-> In j l.
+  Proof.
+    unfold memb. rewrite existsb_exists. split.
+    - intros [x [I E]]. apply N.eqb_eq in E. subst. exact I.
+    - intros I. exists j. split; [exact I|apply N.eqb_refl].
+  Qed.
+
+  (* every connection: SEND_DIR_NAME (its own name) first, then data/metadata, SEND_END last *)
+  Fixpoint sessions (open : list N) (evs : list (N * msg)) : bool :=
+    match evs with
+    | [] => true
+    | (j, MDir x) :: r => list_eqb x (dirs j) && negb (memb j open) && sessions (j :: open) r
+    | (j, MEnd) :: r => memb j open && sessions (List.remove N.eq_dec j open) r
+    | (j, _) :: r => memb j open && sessions open r
+    end.
+
+  Definition alive (open : list N) (s : server) : Prop :=
+    forall j, In j open -> find_client j (clients s) = Some (dirs j) /\ fs s (dirs j) <> None.
+
+  Lemma step_body j m open s : is_body m = true -> In j open -> alive open s ->
+    exists s', apply j (action_of m) s = Some s' /\ alive open s'.
+  Proof.
+    intros B I A. destruct (A j I) as [F D]. destruct (fs s (dirs j)) as [files|] eqn:E; [|congruence].
+    rewrite (apply_body j (dirs j) m s files B F E). eexists. split; [reflexivity|].
+    intros i Ii. destruct (A i Ii) as [Fi Di]. cbn [clients fs]. split; [exact Fi|].
+    unfold fs_set. destruct (list_eqb (dirs i) (dirs j)); [discriminate|exact Di].
+  Qed.
+
+  Lemma survive : forall evs open s, (forall e, In e evs -> P (fst e)) -> (forall j, In j open -> P j) ->
+    sessions open evs = true -> alive open s -> run evs s <> None.
+  Proof.
+    induction evs as [|[j m] r IH]; intros open s PE PO W A; [cbn; discriminate|].
+    assert (Pj : P j) by (apply (PE (j, m)); left; reflexivity).
+    assert (PEr : forall e, In e r -> P (fst e)) by (intros e I; apply PE; right; exact I).
+    assert (Body : is_body m = true -> memb j open = true -> sessions open r = true -> run ((j, m) :: r) s <> None).
+    { intros B M Wr. apply memb_In in M. destruct (step_body j m open s B M A) as [s' [Ap A']].
+      cbn [run]. rewrite Ap. apply (IH open s' PEr PO Wr A'). }
+    destruct m; cbn [sessions] in W;
+      try (apply andb_true_iff in W; destruct W as [W1 W2]; apply Body; [reflexivity|exact W1|exact W2]).
+    - (* MDir *)
+      apply andb_true_iff in W. destruct W as [W12 W3]. apply andb_true_iff in W12. destruct W12 as [W1 W2].
+      apply list_eqb_eq in W1. subst name. cbn [run action_of apply].
+      apply (IH (j :: open) _ PEr); [intros i [<-|I]; auto|exact W3|].
+      intros i [<-|I]; cbn [clients fs find_client].
+      + rewrite N.eqb_refl. split; [reflexivity|apply create_directory_present].
+      + assert (Nij : j <> i).
+        { intros ->. apply negb_true_iff in W2. apply memb_In in I. congruence. }
+        destruct (j =? i) eqn:E; [apply N.eqb_eq in E; contradiction|].
+        destruct (A i I) as [Fi Di]. split; [exact Fi|].
+        destruct (pair_indep i j (PO i I) Pj (not_eq_sym Nij)) as [Q1 [Q2 Q3]].
+        rewrite create_directory_elsewhere by assumption. exact Di.
+    - (* MEnd *)
+      apply andb_true_iff in W. destruct W as [W1 W2]. cbn [run action_of apply].
+      apply (IH (List.remove N.eq_dec j open) _ PEr); [|exact W2|].
+      + intros i I. apply in_remove in I. apply PO. apply I.
+      + intros i I. apply in_remove in I. destruct I as [I Nij]. destruct (A i I) as [Fi Di].
+        cbn [clients fs]. split; [|exact Di]. rewrite find_client_del_other by exact Nij. exact Fi.
+  Qed.
+End Survive.
+
+Theorem sessions_survive dirs evs :
+  (forall i j, In i (map fst evs) -> In j (map fst evs) -> i <> j -> indep (dirs i) (dirs j)) ->
+  sessions dirs [] evs = true -> run evs server0 <> None.
+Proof.
+  intros PI W. apply (survive dirs (fun i => In i (map fst evs)) PI evs [] server0); auto.
+  - intros e I. apply in_map. exact I.
+  - intros j [].
+  - intros j [].
+Qed.
+
+Example sessions_nonvacuous : sessions dirs2 [] evs2 = true.
+Proof. vm_compute. reflexivity. Qed.
